@@ -149,6 +149,48 @@ func narrowType(t reflect.Type) reflect.Type {
 	return t
 }
 
+// arrayType maps a type to the same shape with every non-byte slice replaced by an array of length 3.
+func arrayType(t reflect.Type) reflect.Type {
+	if t == vh.TimeType {
+		return t
+	}
+	switch t.Kind() {
+	case reflect.Slice:
+		if t.Elem().Kind() == reflect.Uint8 {
+			return t
+		}
+		return reflect.ArrayOf(3, arrayType(t.Elem()))
+	case reflect.Array:
+		if e := arrayType(t.Elem()); e != t.Elem() {
+			return reflect.ArrayOf(t.Len(), e)
+		}
+	case reflect.Ptr:
+		if e := arrayType(t.Elem()); e != t.Elem() {
+			return reflect.PointerTo(e)
+		}
+	case reflect.Map:
+		if e := arrayType(t.Elem()); e != t.Elem() {
+			return reflect.MapOf(t.Key(), e)
+		}
+	case reflect.Struct:
+		changed := false
+		fs := make([]reflect.StructField, t.NumField())
+		for i := range fs {
+			fs[i] = t.Field(i)
+			fs[i].Offset = 0
+			fs[i].Index = nil
+			if e := arrayType(fs[i].Type); e != fs[i].Type {
+				fs[i].Type = e
+				changed = true
+			}
+		}
+		if changed {
+			return reflect.StructOf(fs)
+		}
+	}
+	return t
+}
+
 func main() {
 	n := flag.Int("n", 1500, "cases")
 	out := flag.String("out", "", "digest file")
@@ -243,6 +285,20 @@ func main() {
 					return result{false, reenc(p.Elem().Interface()), d.NumBytesRead()}
 				})
 				line += fmt.Sprintf("|narrow:%v:%d:%s", dn.err, dn.n, truncs(dn.data))
+			}
+			// decode into the ARRAY-SHAPED type (every []E becomes [3]E): streams shorter than the array leave a
+			// tail that must be zero, longer ones must be handled identically, in every variant
+			if at := arrayType(t); at != t {
+				da := guarded(func() result {
+					p := reflect.New(at)
+					d := codec.NewDecoderBytes(enc, h)
+					err := d.Decode(p.Interface())
+					if err != nil {
+						return result{true, nil, 0}
+					}
+					return result{false, reenc(p.Elem().Interface()), d.NumBytesRead()}
+				})
+				line += fmt.Sprintf("|arr:%v:%d:%s", da.err, da.n, truncs(da.data))
 			}
 			// schema-less decode
 			d2 := guarded(func() result {
